@@ -1,6 +1,230 @@
 package c20
 
-import "verif/evid"
+import (
+	"bytes"
+	"encoding/json"
+	"fmt"
+	"sync"
+	"testing"
+	"time"
 
-// e2eEngines is filled in by e2e_bubble_test.go once the in-memory network exists.
-var e2eEngines = func() []evid.Engine { return nil }
+	"github.com/plgd-dev/go-coap/v3/message"
+	"github.com/plgd-dev/go-coap/v3/message/codes"
+	"github.com/plgd-dev/go-coap/v3/message/pool"
+	"github.com/plgd-dev/go-coap/v3/net/responsewriter"
+	"github.com/plgd-dev/go-coap/v3/options"
+	"github.com/plgd-dev/go-coap/v3/tcp"
+	tcpClient "github.com/plgd-dev/go-coap/v3/tcp/client"
+	"github.com/plgd-dev/go-coap/v3/udp"
+	udpClient "github.com/plgd-dev/go-coap/v3/udp/client"
+	"pgregory.net/rapid"
+
+	"verif/bubble"
+	"verif/endpoints"
+	"verif/evid"
+	"verif/memnet"
+	"verif/peer"
+	"verif/refcodec"
+	"verif/wire"
+)
+
+// One request of the end-to-end engine.
+type e2eReq struct {
+	Con      bool   `json:"con"`
+	Method   int    `json:"method"`   // 1..4
+	ValueLen int    `json:"valueLen"` // length of the No-Response option value: 0, 1 (legal) or 2 (illegal: the option is dropped on receipt); -1 = no option
+	Value    uint32 `json:"value"`
+	Code     int    `json:"code"` // what the handler answers
+}
+
+type e2eScenario struct {
+	Transport string   `json:"transport"` // udp | tcp
+	Reqs      []e2eReq `json:"reqs"`
+}
+
+var testingT *testing.T
+
+var e2eEngines func() []evid.Engine
+
+func execE2E(r *evid.Run) func(sc e2eScenario) *evid.Failure {
+	return func(sc e2eScenario) *evid.Failure {
+		var fail *evid.Failure
+		var mu sync.Mutex
+		setResponseErr := map[int]error{}
+		res := bubble.Run(testingT, 60*time.Second, nil, func() {
+			var tk endpoints.Ticker
+			var w wire.Wire
+			var closeConn func()
+			handle := func(setResponse func(code codes.Code) error, rq *pool.Message) {
+				b, _ := rq.ReadBody()
+				if len(b) != 3 || b[0] != 0x20 {
+					return
+				}
+				err := setResponse(codes.Code(b[2]))
+				mu.Lock()
+				setResponseErr[int(b[1])] = err
+				mu.Unlock()
+			}
+			if sc.Transport == "udp" {
+				link := memnet.NewPacketLink(memnet.LinkCfg{LatencyMs: 1})
+				cc := endpoints.UDP(link.A, []udp.Option{
+					options.WithMessagePool(pool.New(8, 2048)), options.WithPeriodicRunner(tk.Runner()),
+					options.WithBlockwise(false, 6, time.Second),
+					options.WithHandlerFunc(udpClient.HandlerFunc(func(rw *responsewriter.ResponseWriter[*udpClient.Conn], rq *pool.Message) {
+						handle(func(c codes.Code) error {
+							return rw.SetResponse(c, message.TextPlain, bytes.NewReader([]byte("x")))
+						}, rq)
+					})),
+				}...)
+				w = wire.UDP(link)
+				closeConn = func() { _ = cc.Close() }
+			} else {
+				link := memnet.NewStreamLink(memnet.StreamCfg{})
+				cc, err := endpoints.TCP(link.A, []tcp.Option{
+					options.WithMessagePool(pool.New(8, 2048)), options.WithPeriodicRunner(tk.Runner()),
+					options.WithBlockwise(false, 6, time.Second), options.WithCloseSocket(),
+					options.WithHandlerFunc(tcpClient.HandlerFunc(func(rw *responsewriter.ResponseWriter[*tcpClient.Conn], rq *pool.Message) {
+						handle(func(c codes.Code) error {
+							return rw.SetResponse(c, message.TextPlain, bytes.NewReader([]byte("x")))
+						}, rq)
+					})),
+				}...)
+				if err != nil {
+					panic(err)
+				}
+				w = wire.TCP(link)
+				closeConn = func() { _ = cc.Close(); _ = link.B.Close() }
+			}
+			bubble.Wait()
+			_ = w.FromLib()
+			for i, q := range sc.Reqs {
+				m := refcodec.Msg{Code: q.Method, Token: []byte{0x20, byte(i)}, MID: 1000 + i, Payload: []byte{0x20, byte(i), byte(q.Code)},
+					Opts: peer.PathOpts("nr")}
+				if !q.Con {
+					m.Type = peer.NON
+				}
+				if q.ValueLen >= 0 {
+					v := make([]byte, q.ValueLen)
+					for k := range v {
+						v[len(v)-1-k] = byte(q.Value >> (8 * uint(k)))
+					}
+					m.Opts = append(m.Opts, peer.Opt(258, v))
+				}
+				w.ToLib(m)
+				bubble.Wait()
+				out := w.FromLib()
+				// what the option means after decoding: a value of illegal length is dropped (documented leniency)
+				effective := uint32(0)
+				if q.ValueLen == 1 {
+					effective = q.Value & 0xff
+				}
+				suppressed := specSuppressed(effective, q.Code)
+				mu.Lock()
+				serr, ran := setResponseErr[i]
+				mu.Unlock()
+				desc := fmt.Sprintf("request %d (%s, con=%v, No-Response len %d value %d, handler answers %d.%02d)", i, sc.Transport, q.Con, q.ValueLen, q.Value, q.Code>>5, q.Code&31)
+				if !ran {
+					fail = evid.Failf("e2e/handler-not-run", sc, "%s: the handler did not run", desc)
+					return
+				}
+				if (serr != nil) != suppressed {
+					fail = evid.Failf("e2e/set-response", sc, "%s: SetResponse refused=%v, RFC 7967 says suppressed=%v", desc, serr != nil, suppressed)
+					return
+				}
+				var responses, acks []refcodec.Msg
+				for _, o := range out {
+					switch {
+					case o.Code != 0:
+						responses = append(responses, o)
+					case w.Datagram() && o.Type == peer.ACK && o.MID == m.MID:
+						acks = append(acks, o)
+					default:
+						fail = evid.Failf("e2e/unexpected-message", sc, "%s: unexpected message on the wire %+v", desc, o)
+						return
+					}
+				}
+				if suppressed {
+					if len(responses) != 0 {
+						fail = evid.Failf("e2e/suppressed-response-on-wire", sc, "%s: the response is suppressed but %+v was put on the wire", desc, responses[0])
+						return
+					}
+					wantAcks := 0
+					if w.Datagram() && q.Con {
+						wantAcks = 1
+					}
+					if len(acks) != wantAcks {
+						fail = evid.Failf("e2e/bare-ack", sc, "%s: %d bare acknowledgements on the wire, want %d", desc, len(acks), wantAcks)
+						return
+					}
+					continue
+				}
+				if len(responses) != 1 || len(acks) != 0 {
+					fail = evid.Failf("e2e/response-dropped", sc, "%s: the response is not suppressed but the wire shows %d responses and %d bare ACKs", desc, len(responses), len(acks))
+					return
+				}
+				rp := responses[0]
+				if rp.Code != q.Code || !bytes.Equal(rp.Token, m.Token) || string(rp.Payload) != "x" {
+					fail = evid.Failf("e2e/wrong-response", sc, "%s: response on the wire %+v", desc, rp)
+					return
+				}
+				if w.Datagram() && q.Con && (rp.Type != peer.ACK || rp.MID != m.MID) {
+					fail = evid.Failf("e2e/not-piggybacked", sc, "%s: response type %d MID %d", desc, rp.Type, rp.MID)
+					return
+				}
+			}
+			closeConn()
+			bubble.Wait()
+		})
+		if res.Panic != "" {
+			return evid.Failf("e2e/panic", sc, "panic in scenario: %s", res.Panic)
+		}
+		if res.Deadlock {
+			return evid.Failf("e2e/deadlock", sc, "all goroutines blocked while the scenario was still running")
+		}
+		if fail == nil {
+			for _, q := range sc.Reqs {
+				key := ""
+				if q.ValueLen == 1 && q.Value != 0 {
+					key = fmt.Sprint(sc.Transport, q.Con, q.Value, q.Code)
+				}
+				r.Case("e2e", key, func() any { return sc }, "e2e/"+sc.Transport)
+			}
+		}
+		return fail
+	}
+}
+
+func genE2E(t *rapid.T) e2eScenario {
+	sc := e2eScenario{Transport: rapid.SampledFrom([]string{"udp", "tcp"}).Draw(t, "transport")}
+	n := rapid.IntRange(1, 6).Draw(t, "n")
+	for i := 0; i < n; i++ {
+		q := e2eReq{
+			Con:      rapid.Bool().Draw(t, "con"),
+			Method:   rapid.IntRange(1, 4).Draw(t, "method"),
+			ValueLen: rapid.SampledFrom([]int{1, 1, 1, 1, 0, 2, -1}).Draw(t, "vlen"),
+			Value:    uint32(rapid.OneOf(rapid.IntRange(0, 63), rapid.IntRange(0, 255), rapid.SampledFrom([]int{2, 8, 16, 26, 24, 10, 18, 255, 258, 0x1a1a})).Draw(t, "value")),
+			Code:     rapid.OneOf(rapid.IntRange(64, 191), rapid.SampledFrom([]int{65, 69, 95, 128, 132, 136, 157, 160, 165, 191, 64, 96, 192, 224})).Draw(t, "code"),
+		}
+		sc.Reqs = append(sc.Reqs, q)
+	}
+	return sc
+}
+
+func init() {
+	e2eEngines = func() []evid.Engine {
+		var r *evid.Run
+		e := evid.RapidEngine("e2e", evid.RapidOpts{Quick: 12000, Thorough: 200000, Crashy: true}, genE2E, func(sc e2eScenario) *evid.Failure {
+			return execE2E(r)(sc)
+		})
+		search := e.Search
+		e.Search = func(run *evid.Run) { r = run; search(run) }
+		replay := e.Replay
+		e.Replay = func(raw json.RawMessage) *evid.Failure {
+			if r == nil {
+				r = evid.New(testingT, "C20-replay")
+			}
+			return replay(raw)
+		}
+		return []evid.Engine{e}
+	}
+}
